@@ -743,7 +743,8 @@ func ImportType(memoryGauge common.MemoryGauge, t cadence.Type) interpreter.Stat
 		*cadence.ResourceType,
 		*cadence.EventType,
 		*cadence.ContractType,
-		*cadence.EnumType:
+		*cadence.EnumType,
+		*cadence.AttachmentType:
 		return importCompositeType(
 			memoryGauge,
 			t.(cadence.CompositeType),
@@ -790,6 +791,6 @@ func ImportType(memoryGauge common.MemoryGauge, t cadence.Type) interpreter.Stat
 		)
 
 	default:
-		panic(fmt.Sprintf("cannot import type of type %T", t))
+		panic(errors.NewDefaultUserError("cannot import type of type %T", t))
 	}
 }
